@@ -4,7 +4,7 @@
    risk_matrix.py and murphy_impl.py on every run; sums, matrix orientation and the scaling algorithm are
    the hand models of coq/model/C12.v (tied by the correspondence check). *)
 From Coq Require Import Sorting.Sorted Sorting.Permutation.
-From V Require Import lib.Tree gen.Gen_C12_kern model.C12 proofs.C12 proofs.C12_murphy proofs.C12_sum proofs.C12_mats.
+From V Require Import lib.Tree gen.Gen_C12_kern model.C12 proofs.C12 proofs.C12_murphy proofs.C12_sum proofs.C12_mats proofs.C12_scaling.
 
 (* firm_single_spec: for every rational forecast, observation, threshold (ties included) and risk parameter, both
    threshold assignments (any string other than "lower" behaves as "upper"; the guard admits only the two) and
@@ -136,12 +136,41 @@ Theorem C12_matrix_rows_decreasing_prob : forall (M : list (list xv)) n ps cs M'
 Proof. exact (@mwa_ok xv). Qed.
 Print Assumptions C12_matrix_rows_decreasing_prob.
 
-(* scaling_matrix_spec (PARTIAL).  Full statement intended: for every scaling matrix satisfying the documented
-   checks, _scaling_to_weight_matrix places assessment_weights[l-1], for every level l, at the decision points
-   (row r, column c) where level l is first reached going up column c and column c-1 reaches it only strictly
-   higher (or never).  Proved instead: the line-by-line model of the code equals the specification variant of
-   the same algorithm (lowest_prob_index initialised above every possible row index) whenever
-   max(levels, len(assessment_weights)) >= number of probability thresholds ... *)
+(* scaling_matrix_spec (stretch item): a declarative characterisation of the line-by-line model of
+   _scaling_to_weight_matrix, for ANY initial limit `init` of lowest_prob_index.
+   cross M l c = crossover index of level l in column c (first position, counted from the bottom row, whose warning
+   level is >= l; 0 = never reached).  For every level l = 1..max_level, the weight assessment_weights[l-1] is added at
+   (row cross-1, column c-1) for exactly the columns c = 1..n_sev that `receive` it:
+       0 < cross(l,c) < init   and   for every column c' < c:  cross(l,c') = 0  or  cross(l,c) < cross(l,c')
+   i.e. the level is reached in column c strictly lower than in every column to its left that reaches it. *)
+Theorem C12_scaling_matrix_spec : forall init M aw,
+  placements init M aw =
+  flat_map (fun level => map (place M aw level)
+                             (filter (fun c => (0 <? cross M level c)%nat && (cross M level c <? init)%nat &&
+                                               forallb (fun c' => (cross M level c' =? 0)%nat || (cross M level c <? cross M level c')%nat)
+                                                       (seq 1 (c - 1)))
+                                     (seq 1 (length (hd [] M) - 1))))
+           (seq 1 (max_level M aw)).
+Proof. exact placements_spec. Qed.
+Print Assumptions C12_scaling_matrix_spec.
+
+(* meaning of the crossover index *)
+Theorem C12_scaling_crossover_meaning : forall l lvl,
+  match first_ge l lvl with
+  | Some k => (k < length l)%nat /\ (lvl <= nth k l 0)%Z /\ forall j, (j < k)%nat -> (nth j l 0 < lvl)%Z
+  | None => forall j, (j < length l)%nat -> (nth j l 0 < lvl)%Z
+  end.
+Proof. exact first_ge_spec. Qed.
+Print Assumptions C12_scaling_crossover_meaning.
+
+(* with the specification's limit (the number of rows = n_prob + 1) the condition `cross < init` is vacuous *)
+Theorem C12_scaling_limit_vacuous_in_spec : forall M level c, M <> [] -> (cross M level c < length M)%nat.
+Proof. exact cross_lt_rows. Qed.
+Print Assumptions C12_scaling_limit_vacuous_in_spec.
+
+(* code (limit max_level + 1) = specification (limit n_prob + 1) whenever
+   max(levels, len(assessment_weights)) >= number of probability thresholds ... (PARTIAL: the unconditional
+   statement `scaling_to_wm M aw = scaling_to_wm_spec M aw` is false, see the next theorem) *)
 Theorem C12_scaling_matrix_spec_partial : forall M aw,
   M <> [] -> (length M - 1 <= max_level M aw)%nat -> scaling_to_wm M aw = scaling_to_wm_spec M aw.
 Proof. exact scaling_code_eq_spec. Qed.
@@ -160,6 +189,23 @@ Theorem C12_scaling_depends_on_unused_weight_refuted :
   scaling_to_wm M_wit [1] = [[0]; [0]] /\ scaling_to_wm M_wit [1; 5] = [[1 + 0]; [0]].
 Proof. exact scaling_depends_on_unused_weight. Qed.
 Print Assumptions C12_scaling_depends_on_unused_weight_refuted.
+
+(* the regenerated scalar guards: what passes them is inside the domain of the theorems above, and valid arguments pass *)
+Theorem C12_firm_guard_admits_only_valid : forall (a : Q) (d : xv) (s : string),
+  gen_guard_firm (XFin a) d s = None -> 0 < a < 1 /\ (s = "lower" \/ s = "upper")%string.
+Proof. exact firm_guard_pass. Qed.
+Print Assumptions C12_firm_guard_admits_only_valid.
+
+Theorem C12_firm_guard_accepts_valid : forall (a : Q) (d : xv) (s : string),
+  0 < a < 1 -> disc_ok d -> (s = "lower" \/ s = "upper")%string -> gen_guard_firm (XFin a) d s = None.
+Proof. exact firm_guard_ok. Qed.
+Print Assumptions C12_firm_guard_accepts_valid.
+
+Theorem C12_rms_guard_spec : forall (fmax fmin tmax tmin : Q) (s : string),
+  gen_guard_rms (XFin fmax) (XFin fmin) (XFin tmax) (XFin tmin) s = None <->
+  (fmax <= 1 /\ 0 <= fmin /\ 0 < tmin /\ tmax < 1 /\ (s = "lower" \/ s = "upper")%string).
+Proof. exact rms_guard_iff. Qed.
+Print Assumptions C12_rms_guard_spec.
 
 (* non-vacuity *)
 Example C12_ex_tie_lower : (* obs exactly on the threshold belongs to the lower category: a false alarm for f > t *)
